@@ -83,7 +83,14 @@ def subset_case(draw, n_inputs=4):
                 body_e = M.Bin(draw(st.sampled_from(["+", "*", "-"])), pair[0], pair[1], ty=INT)
         # helpers that are not exported may sit between the exported functions (never called: calls are outside the subset)
         exported = (k == nf - 1 and not entries) or draw(st.integers(0, 9)) < 7
-        f = M.Func("w%d" % k, params, ret, M.Block([M.Return(body_e)]), exported)
+        fname = "w%d" % k
+        if not exported and funcs and draw(st.integers(0, 9)) < 4:
+            # a non-exported overload of an earlier function (same name, other parameter types)
+            sig = tuple(t for t, _ in params)
+            cands = [g.name for g in funcs if all(tuple(t for t, _ in h.params) != sig for h in funcs if h.name == g.name)]
+            if cands:
+                fname = draw(st.sampled_from(sorted(set(cands))))
+        f = M.Func(fname, params, ret, M.Block([M.Return(body_e)]), exported)
         funcs.append(f)
         if exported:
             entries.append(f.name)
